@@ -501,6 +501,141 @@ net_cfg(sim_config *cfg, Params *p)
 }
 SCENARIO(c04_reqatk, "C04", net_cfg, reqatk_run);
 
+// ---------------------------------------------------------------------------
+// A2. replies that arrive before the request has been handed to a connection.
+// The REQ->REP direction is stalled with a tiny kernel buffer, so one request
+// occupies the only pipe and the next one stays queued inside the socket; the
+// adversary (who can predict ids) answers it anyway.
+static void
+prewire_run(Params *p)
+{
+	(void) p;
+	nng_socket req, rep;
+	MUST(nng_req0_open(&req));
+	MUST(nng_rep0_open_raw(&rep));
+	MUST(nng_socket_set_ms(rep, NNG_OPT_RECVTIMEO, 200));
+	MUST(nng_socket_set_ms(rep, NNG_OPT_SENDTIMEO, 1000));
+	MUST(nng_socket_set_ms(req, NNG_OPT_REQ_RESENDTIME, NNG_DURATION_INFINITE));
+	const int port = 5000 + 55;
+	std::string url = h_url(TR_TCP, 55);
+	MUST(nng_listen(rep, url.c_str(), NULL, 0));
+	MUST(nng_dial(req, url.c_str(), NULL, 0));
+	sim_quiesce(10000000);
+	nng_ctx c[3];
+	for (int i = 0; i < 3; i++)
+		MUST(nng_ctx_open(&c[i], req));
+	auto mkreq = [](int ctx, size_t pad) {
+		nng_msg *m = NULL;
+		MUST(nng_msg_alloc(&m, 0));
+		uint8_t b[6] = { 'Q', (uint8_t) ctx, 0, 0, 0, 0 };
+		nng_msg_append(m, b, 6);
+		std::string fill(pad, 'x');
+		nng_msg_append(m, fill.data(), fill.size());
+		return m;
+	};
+	// 1. first request goes through; the adversary learns the id sequence
+	MUST(nng_ctx_sendmsg(c[0], mkreq(0, 0), 0));
+	nng_msg *m = NULL;
+	MUST(nng_recvmsg(rep, &m, 0));
+	const uint8_t *h    = (const uint8_t *) nng_msg_header(m);
+	uint32_t       pipe = get32(h), id0 = get32(h + 4);
+	nng_msg_free(m);
+	// 2. stall client->server; a big request occupies the pipe
+	simnet_stall_port((uint16_t) port, 1, 1);
+	UAio s1, s2;
+	nng_aio_set_msg(s1.aio, mkreq(1, (size_t) W(300, 2000)));
+	nng_aio_set_timeout(s1.aio, 5000);
+	s1.arm("send1");
+	nng_ctx_send(c[1], s1.aio);
+	sim_quiesce(5000000);
+	nng_aio_set_msg(s2.aio, mkreq(2, 0));
+	nng_aio_set_timeout(s2.aio, 5000);
+	s2.arm("send2");
+	nng_ctx_send(c[2], s2.aio);
+	sim_quiesce(5000000);
+	bool queued = !s2.poll(); // request 2 has not been handed to any connection
+	sim_event("prewire: id0=%08x send1 done=%d send2 done=%d", id0, (int) s1.poll(), (int) s2.poll());
+	// 3. the adversary answers ids that are not on the wire yet
+	AWorld w;
+	w.rep = rep;
+	w.adv_serial = 0;
+	w.send_failed = 0;
+	for (uint32_t k = 1; k <= 4; k++)
+		adv_reply(&w, pipe, id0 + k, 'N', NULL, 0);
+	sim_quiesce(5000000);
+	if (queued && s2.poll())
+		sim_probe("c04_prewire_send2_completed_during_stall");
+	// a receive on ctx 2 cannot legitimately have a reply now
+	if (queued && !s2.poll()) {
+		sim_stat("nontrivial", 1);
+		sim_probe("c04_prewire_window_entered");
+		UAio r2;
+		nng_aio_set_timeout(r2.aio, 30);
+		r2.arm("recv2");
+		nng_ctx_recv(c[2], r2.aio);
+		r2.wait(0);
+		if (r2.result == 0) {
+			nng_msg_free(nng_aio_get_msg(r2.aio));
+			VIOL("reply_before_wire",
+			    "ctx 2 received a reply while its request was still queued inside the socket "
+			    "(never handed to a connection)");
+		}
+		// note: that receive timing out abandons request 2 (documented REQ semantics)
+	}
+	// 4. heal; everything must still work
+	simnet_stall_port((uint16_t) port, 1, 0);
+	s1.wait(0);
+	s2.wait(0);
+	if (s1.result != 0)
+		nng_msg_free(nng_aio_get_msg(s1.aio));
+	if (s2.result != 0)
+		nng_msg_free(nng_aio_get_msg(s2.aio));
+	for (int k = 0; k < 4; k++) {
+		nng_msg *q = NULL;
+		if (nng_recvmsg(rep, &q, 0) != 0)
+			break;
+		const uint8_t *qh = (const uint8_t *) nng_msg_header(q);
+		const uint8_t *qb = (const uint8_t *) nng_msg_body(q);
+		if (nng_msg_header_len(q) == 8 && nng_msg_len(q) >= 6) {
+			uint8_t echo[6];
+			memcpy(echo, qb, 6);
+			adv_reply(&w, get32(qh), get32(qh + 4), 'C', echo, 6);
+		}
+		nng_msg_free(q);
+	}
+	// a fresh exchange on ctx 0 must work and deliver its own reply
+	MUST(nng_ctx_sendmsg(c[0], mkreq(0, 0), 0));
+	nng_msg *q = NULL;
+	if (nng_recvmsg(rep, &q, 0) == 0) {
+		const uint8_t *qh = (const uint8_t *) nng_msg_header(q);
+		uint8_t echo[6];
+		memcpy(echo, nng_msg_body(q), 6);
+		adv_reply(&w, get32(qh), get32(qh + 4), 'C', echo, 6);
+		nng_msg_free(q);
+		nng_msg *r = NULL;
+		nng_ctx_set_ms(c[0], NNG_OPT_RECVTIMEO, 2000);
+		int rv = nng_ctx_recvmsg(c[0], &r, 0);
+		if (rv != 0)
+			VIOL("reply_not_delivered", "after the stall ctx 0's correct reply was not delivered (%d)", rv);
+		const uint8_t *rb = (const uint8_t *) nng_msg_body(r);
+		if (nng_msg_len(r) < 16 || rb[1] != 'C' || rb[11] != 0)
+			VIOL("reply_misrouted", "ctx 0 received a reply that is not the answer to its request");
+		nng_msg_free(r);
+	}
+	for (int i = 0; i < 3; i++)
+		MUST(nng_ctx_close(c[i]));
+	MUST(nng_socket_close(req));
+	MUST(nng_socket_close(rep));
+}
+static void
+prewire_cfg(sim_config *cfg, Params *p)
+{
+	(void) p;
+	cfg->sndbuf_min = 24;
+	cfg->sndbuf_max = 64;
+}
+SCENARIO(c04_prewire, "C04", prewire_cfg, prewire_run);
+
 // ===========================================================================
 // B. cooked REP (socket + contexts) served to several raw requesters.
 // request: header = backtrace words (last has the request bit), body 'Q' peer(1) serial(4)
